@@ -72,6 +72,11 @@ def check_recv(ctx, oid="C17.1"):
         R.check(oid, "TYPESTATE", fi, "loop `%s` raises when recv returns b'' (peer closed)" % v, bool(eof),
                 "an empty recv() result is not tested before looping again: recv_msg never terminates at EOF",
                 example="the peer closing the connection in the middle of a message")
+        other = [e for e in lp.exits if e not in eof]
+        R.check(oid, "TYPESTATE", fi, "loop `%s` leaves early only at EOF: no verdict is taken on a partially received buffer" % v, not other,
+                "inside the receive loop a %s is taken under `%s`: the outcome depends on how the stream happens to be fragmented" % (
+                    (other[0].kind + " " + str(other[0].exc or "")) if other else "", tm.show(tm.land(list(other[0].guard)))[:140] if other else ""),
+                example="a valid message whose first recv() returns 1 to 3 bytes")
         info.append((v, acc, target, lp))
     if len(info) != 2:
         return None
